@@ -7,7 +7,7 @@ from .. import scenario as sc, clauses as cl
 
 PROP = "C10"
 LEVEL = "exploration"
-RULE = ("Hypothesis scenarios as for C02/C03 with model.abs_tol/rel_tol drawn over decades, zero-residual problems, "
+RULE = ("Sub-generators: budget windows (soft restarts appending 1-3 points, optional 2-3 samples, maxfun any integer to 110; 15%) and non-finite objectives (inf/NaN/1e200 from evaluation k on, all restart flavours; 10%). Otherwise: Hypothesis scenarios as for C02/C03 with model.abs_tol/rel_tol drawn over decades, zero-residual problems, "
         "restarts.max_unsuccessful_restarts in {1,2,3}, rhoend_scale, diagnostics always on; in a third of the cases model.abs_tol "
         "is set to a multiple (2 .. 0.01) of f(x0) so that the small-objective exit fires at every stage of a run. Restarts are counted "
         "independently of soln.nruns by wrapping solve_main and Controller.soft_restart. Non-trivial = at least one of "
